@@ -398,6 +398,11 @@ pub fn alphabet(name: &str) -> Vec<Op> {
                 Op::Union(case(cc(), 100, h(100), 101, var(101)), lam(100, var(100))),
                 Op::Add(case(cc(), 100, h(100), 100, var(100))),
                 Op::Union(f(0, 1), f(0, 2)),
+                // two NESTED binders over a body with a free slot whose numeric name is the number the node's shape gives to
+                // the inner binder ($1 when the binders are the node's first slots, $2 after a one-slot child)
+                Op::Add(sum(cc(), 100, 101, t3(100, 101, 1))),
+                Op::Add(sum(var(0), 100, 101, t3(100, 101, 2))),
+                Op::Union(sum(cc(), 100, 101, t3(100, 101, 1)), h(1)),
             ]
         }
         "CHAIN" => {
